@@ -48,6 +48,12 @@ fn views<C: Combo + ToU64>(sink: &mut Sink, d: u8, l: &[Range<u64>]) {
     let flat: Vec<u64> = m.flatten_to_fixed_depth_cells().map(|c| c.to_u64()).collect();
     let txt = if flat.is_empty() { "_".to_string() } else { flat.iter().map(|x| x.to_string()).collect::<Vec<_>>().join(",") };
     sink.emit(&format!("r_flat {} {} {} {}", q, w, d, fl), &txt, nt);
+    // flat cells back to a MOC, through builders that flush every 1 / 2 / 3 / 7 cells (runs of consecutive cells
+    // straddle the flush boundaries) and through the default buffer: the round trip gives back the MOC
+    for cap in [Some(1usize), Some(2), Some(3), Some(7), None] {
+      let rt: RangeMOC<C::T, C::Q> = RangeMOC::from_fixed_depth_cells(d, m.flatten_to_fixed_depth_cells(), cap);
+      sink.emit(&format!("same flat-cap{} {} {}", cap.map(|c| c.to_string()).unwrap_or("default".to_string()), d, fl), &describe_moc(&rt), nt);
+    }
   }
   // back to ranges (model evaluates its own adapters on the implementation's cells)
   let back: Vec<Range<C::T>> = (&m).into_range_moc_iter().cells().ranges().collect();
